@@ -13,11 +13,11 @@ PASSED=$(grep -c "Passed" /tmp/confirm_$ID.ctest.log); FAILED=$(grep "\*\*\*Fail
 echo "tests: passed=$PASSED other-failures=$FAILED"
 timeout 900 bash demo/run.sh > /tmp/confirm_$ID.with.log 2>&1; W=$?
 echo "demo with change: exit $W"
-git stash -q -- src || exit 2
+git apply -R /tmp/confirm_$ID.diff || exit 2
 cmake --build _build -j8 > /dev/null 2>&1
 timeout 900 bash demo/run.sh > /tmp/confirm_$ID.without.log 2>&1; WO=$?
 echo "demo without change: exit $WO"
-git stash pop -q
+git apply /tmp/confirm_$ID.diff
 cmake --build _build -j8 > /dev/null 2>&1
 if [ "$PASSED" = "92" ] && [ "$FAILED" = "0" ] && [ $W -ne 0 ] && [ $WO -eq 0 ]; then
   mkdir -p "$ROOT/seeded/$ID"
